@@ -13,6 +13,10 @@ def install_all(reg):
     deps.install(reg)
     petri_net.install(reg)
     petri_net.install_names(reg)
+    from . import petri_build
+    petri_build.install(reg)
+    petri_build.install_network(reg)
+    petri_build.install_generator(reg)
     trappist.install(reg)
     trappist.install_models(reg)
     trappist.install_programs(reg)
